@@ -423,3 +423,53 @@ Definition call (h : heap) (m : meth) (d : reqdefect) (i : impl) : exchange :=
   | (Resp r h', inv) => Exchanged r (client (m_kind m) r) h' inv
   | (ServePanic h', _) => Crashed h'
   end.
+
+(* ------------------------------------------------------------------------------------------------ filters *)
+
+(* restli.Filter (handler.go:435-445): what a hook returns.  An error response built by a filter is a fresh object. *)
+Inductive fresult := FOk | FPlain (msg : bytes) | FErrResp (e : err_resp).
+Record filter := { f_pre : fresult; f_post : fresult }.
+
+Definition fresult_err (r : fresult) : option errv :=
+  match r with FOk => None | FPlain msg => Some (EPlainErr msg) | FErrResp e => Some (EFresh e) end.
+Fixpoint first_err (l : list fresult) : option errv :=
+  match l with
+  | [] => None
+  | r :: t => match fresult_err r with Some e => Some e | None => first_err t end
+  end.
+
+(* receive, handler.go:352-361: PreRequest in registration order before the handler, the first error is receive's result *)
+Definition run_pre_filters (fs : list filter) : option errv := first_err (map f_pre fs).
+(* ServeHTTP, handler.go:110-117: PostRequest in reverse order, the first error replaces the (nil) error *)
+Definition run_post_filters (fs : list filter) : option errv := first_err (map f_post (rev fs)).
+
+Definition receive_f (fs : list filter) (m : meth) (d : reqdefect) (i : impl) : rbody * option errv * Z * bool * bool :=
+  match run_pre_filters fs with
+  | Some e => (NoBody, Some e, serve_initial_status, false, false)
+  | None => receive_handler m d i
+  end.
+
+(* ServeHTTP's tail (handler.go:119-180) on receive's result; [serve] is [serve_tail] of [receive_handler] *)
+Definition serve_tail (h : heap) (x : rbody * option errv * Z * bool * bool) : served * bool :=
+  let '(b, e, s, idh, invoked) := x in
+  (match e with
+   | Some (EPlainErr msg) => write serve_plain_error_status false idh (WText msg) h
+   | Some ev =>
+       match serve_error_response h ev with
+       | Some (e', st, h') => guarded_body st serve_sets_error_header idh (Some (inr e')) h'
+       | None => ServePanic h
+       end
+   | None => guarded_body s false idh (match b with NoBody => None | Body m' => Some (inl m') end) h
+   end, invoked).
+
+(* handler.go:109-117: `responseBody, err := sub.receive(...); if err == nil { for i := len(filters)-1 .. 0 { err = PostRequest(...); if err != nil { break } } }` -
+   the PostRequest hooks run only when receive returned no error; an error of receive is never replaced *)
+Definition serve_f (h : heap) (fs : list filter) (m : meth) (d : reqdefect) (i : impl) : served * bool :=
+  let '(b, e, s, idh, invoked) := receive_f fs m d i in
+  serve_tail h (b, match e with Some _ => e | None => run_post_filters fs end, s, idh, invoked).
+
+Definition call_f (h : heap) (fs : list filter) (m : meth) (d : reqdefect) (i : impl) : exchange :=
+  match serve_f h fs m d i with
+  | (Resp r h', inv) => Exchanged r (client (m_kind m) r) h' inv
+  | (ServePanic h', _) => Crashed h'
+  end.
